@@ -490,7 +490,7 @@ pub fn midpoint_case(fmt: Fmt, r: &Recipe, lim: Limits, family: &'static str, x:
     let mut allow_trailing = false;
     let mut d = h.digits.clone();
     let mut point = h.point;
-    let expect: Option<u64>;
+    let mut expect: Option<u64>;
     match v {
         0 => expect = Some(tie_even(x)),
         1 => {
@@ -503,6 +503,23 @@ pub fn midpoint_case(fmt: Fmt, r: &Recipe, lim: Limits, family: &'static str, x:
                     d.pop();
                 }
                 expect = if k >= safe_len(fmt) { Some(x) } else { None };
+                if r.k[1] % 2 == 0 && !d.is_empty() {
+                    // ... then zeros up to (or just around) the digit limit of the slow path and one more digit:
+                    // the kept prefix ends in a run of zeros exactly where the last partial chunk is flushed
+                    let limit: usize = match fmt {
+                        Fmt::F32 => 114,
+                        Fmt::F64 => 769,
+                    };
+                    let z = match (r.k[1] / 2) % 3 {
+                        0 => limit.saturating_sub(d.len()),
+                        1 => (r.k[2] % 40) as usize,
+                        _ => (limit + (r.k[2] % 3) as usize).saturating_sub(d.len() + 1),
+                    };
+                    pad_to_point(&mut d, point);
+                    d.extend(std::iter::repeat(0).take(z.min(lim.long + 800)));
+                    d.push(1 + (r.k[3] % 9) as u8);
+                    expect = None;
+                }
             }
         }
         2 => {
@@ -904,7 +921,71 @@ pub fn extreme_float(fmt: Fmt, sel: u16, a: u64) -> u64 {
     }
 }
 
+/// "Virtual" rounding boundaries beyond the finite range: (2M+1) * 2^e with a p-bit M and e so large (or so
+/// small) that the value is far outside the format - where an unbounded-exponent float would have had a tie.
+/// The extended-precision stages see the same bit patterns there as at a real boundary; the answer must still be
+/// +inf (or +0.0).  Exact digits, +-1 in the last place, a 19-digit prefix, or a long tail.
+pub fn g_v(fmt: Fmt, r: &Recipe) -> Case {
+    let p = fmt.mbits() as u64 + 1;
+    let m = (r.a & ((1u64 << (p - 1)) - 1)) | (1u64 << (p - 1));
+    let o = Nat::from_u128(2 * m as u128 + 1);
+    let top = (1i64 << (fmt.ebits() - 1)) as i64; // 128 / 1024
+    let big = r.k[0] % 4 != 0;
+    let (digits, point): (Vec<u8>, i64) = if big {
+        // value in [2^top, 2^(top+900)) but below ~1e330
+        let e = (top - p as i64) as u64 + 1 + (r.b % (1090 - top as u64));
+        let n = o.shl(e);
+        let d = n.to_digits();
+        let len = d.len() as i64;
+        (d, len)
+    } else {
+        // value below 2^-(bias + mbits + 2): less than a quarter of the smallest subnormal
+        let e = ((fmt.bias() + fmt.mbits() as i64) as u64 + p + 3 + (r.b % 50)).min(1190);
+        let dec = Dec::from_nat(&o.mul(pow5().get(e as usize)), -(e as i64));
+        (dec.digits.clone(), dec.point)
+    };
+    let mut d = digits;
+    match r.k[1] % 5 {
+        0 => {}
+        1 => {
+            if *d.last().unwrap() == 9 {
+                d.push(1);
+            } else {
+                *d.last_mut().unwrap() += 1;
+            }
+        }
+        2 => {
+            d.truncate(19.min(d.len()));
+            while d.len() > 1 && *d.last().unwrap() == 0 {
+                d.pop();
+            }
+        }
+        3 => {
+            d.truncate((20 + r.k[2] as usize % 30).min(d.len()));
+            while d.len() > 1 && *d.last().unwrap() == 0 {
+                d.pop();
+            }
+        }
+        _ => {
+            while (d.len() as i64) < point && d.len() < 400 {
+                d.push(0);
+            }
+            d.extend(std::iter::repeat(0).take((r.k[2] % 30) as usize));
+            d.push(1 + (r.k[3] % 9) as u8);
+        }
+    }
+    let lz = d.iter().take_while(|&&c| c == 0).count();
+    let d: Vec<u8> = d[lz..].to_vec();
+    let point = point - lz as i64;
+    let allow = d.last() == Some(&0);
+    let (int, frac, exp, lay) = layout(&d, point, r.sel[4], r.k[3], allow);
+    Case { int, frac, exp, family: "G-V virtual boundary beyond the range", variant: if big { "overflow side" } else { "underflow side" }, layout: lay, expect: Some(if big { fmt.inf_bits() } else { 0 }) }
+}
+
 pub fn g_f(fmt: Fmt, r: &Recipe, lim: Limits) -> Case {
+    if r.sel[2] % 8 == 0 {
+        return g_v(fmt, r);
+    }
     match pick_w(r.sel[6], &[50, 15, 20, 15]) {
         0 => {
             let x = extreme_float(fmt, r.sel[1], r.a);
